@@ -56,8 +56,8 @@ ASSUMPTIONS = [
 ]
 REQUIRED_COUNTERS = ["priv_roundtrip", "pub_roundtrip", "export_decoded", "sign_verify", "ref_verify", "negatives",
                      "sig_convert", "cli", "leading_zero_keys", "leading_zero_sigs"]
-CASE_TIMEOUT_S = 600
-WATCHDOG_S = {"quick": 1500, "thorough": 7200}
+CASE_TIMEOUT_S = 3600  # wall-clock watchdog only (RSA-4096 edge cases need ~10 CPU s; the machine may be shared 40-fold)
+WATCHDOG_S = {"quick": 3000, "thorough": 14400}
 MAX_JOBS = 16
 
 # mechanism keys -------------------------------------------------------------------------------
@@ -1471,14 +1471,12 @@ def _run(case, ctx, s, rng, kind, agg):  # noqa: C901
     elif kind == "cli_sig":
         battery_cli_signature(ctx, agg, rng, k, kp, want, kcls, other_pub)
     elif kind == "unsupported":
-        K = s.keys
-        for name, fn in (("PrivateKeySM2.generate_key", lambda: K.PrivateKeySM2.generate_key()),
-                         ("PrivateKeyDilithium.generate_key", lambda: K.PrivateKeyDilithium.generate_key(level=2))):
-            try:
-                fn()
+        gens = s.keys.get_supported_keys_generators()
+        for name in ("sm2", "dil2", "mldsa44"):
+            if name in gens:
                 ctx.note("unexpectedly-constructible", name)
-            except s.SPSDKError as e:
-                agg.refused(["unsupported-key-type", name], e)
+            else:
+                agg.refused(["unsupported-key-type", name], "not offered by get_supported_keys_generators (backend not installed)")
         try:
             s.keys.PrivateKey.parse(pki.data("p256_0", "priv", "pem"), password="abc")
         except s.SPSDKError:
